@@ -15,13 +15,14 @@ META = dict(
               "type/count change on Vdata/Vgroup attributes is refused leaving the old value, and that everything survives close and reopen; (S2) real mfhdf attribute and predefined-metadata code within one SD session: user attributes on "
               "file/dataset/dimension and fill value / range / calibration / strings / dimension name, scale and strings read back exactly what was set, a re-set replaces "
               "in place, the lookups name<->index<->ref agree.",
-        note="Trusted: memio, codes-only error stack, H4_VERIF hook, CBMC 6.11. SD attributes are decided within one SD session only (persistence across SDend/SDstart is outside).",
+        note="Quick tier: Vgroup (read-mode reopen), GR file/image and SD histories; the Vdata/field histories (13 min each) and the write-mode reopen run in the thorough tier. Trusted: memio, codes-only error stack, H4_VERIF hook, CBMC 6.11. SD attributes are decided within one SD session only (persistence across SDend/SDstart is outside).",
         technique="CBMC bounded model checking of real vattr.c/mfgr.c and mfhdf attr.c/mfsd.c attribute code (whole libhdf + mfhdf); symbolic values, concrete history"),
 )
 
 def plan(ctx, tier, seed):
     hs = []
-    for mode, ropen in ((0, 1), (0, 3), (3, 1), (3, 3), (1, 1), (2, 1)):
+    # quick: the Vdata/field attribute histories (mode 0, 13 min each) and the write-mode reopen of the Vgroup one run in the thorough tier only
+    for mode, ropen in (((3, 1), (1, 1), (2, 1)) if tier == "quick" else ((0, 1), (0, 3), (3, 1), (3, 3), (1, 1), (2, 1))):
         hs.append(H("C10.S1.m%d.o%d" % (mode, ropen), "C10", src="harness/C10/s1_attr.c", units=libhdf_units(), models=["memio", "herr", "memloops", "printf"],
                     defs={"MODE": mode, "ROPEN": ropen, "MEMIO_DISK_SZ": 8192}, unwind=5000, kind="S", timeout=2000, symbolic="attribute value bytes",
                     bound="concrete attribute history", group="C10.S1", hang_is_violation=True))
